@@ -55,7 +55,8 @@ rule("C06.l", "plant / CHP: " + NEUTRAL, floor=0)
 rule("C02.h", "contracts and transports: " + NEUTRAL, floor=0)
 rule("C11.h", "the JSON writer decides 'naive' by `tzinfo is None` (a None test), never by the truthiness of an offset "
               "(timedelta(0) is falsy: UTC would be saved as naive)", floor=1)
-rule("C09.f", "a numpy array created from one name is not assigned other names by item (fixed string width truncates them)", floor=1)
+rule("C09.f", "a numpy array created from one name is not assigned other names by item (fixed string width truncates them: the mapping would "
+              "name a node that does not exist - its rows enter no nodal restriction)", floor=1, props=["C09", "C07", "C01"])
 
 
 class _Unit(Domain):
